@@ -103,69 +103,7 @@ func runC18(c *Ctx) {
 	}
 
 	checkSingleInstance(c, lw)
-	// R18.6: an excerpt is computed and stored within one write-locked region
-	c.Doc("R18.6", "the value stored into SubCache.excerpts is computed (makeExcerpt) while the write lock that protects the store is already held, without release in between")
-	for _, fn := range fns {
-		if fnPkgPath(fn) != modPath+"/cache" {
-			continue
-		}
-		root := fn
-		for root.Parent() != nil {
-			root = root.Parent()
-		}
-		if funcName(root) == "cache.SubCache.Build" {
-			continue
-		}
-		li := lw.info(fn)
-		for _, b := range fn.Blocks {
-			for _, ins := range b.Instrs {
-				mu, isMU := ins.(*ssa.MapUpdate)
-				if !isMU {
-					continue
-				}
-				base, fld, isF := loadOfField(mu.Map)
-				if !isF || fld != "excerpts" {
-					continue
-				}
-				mkey := valueKey(base) + ".mu"
-				var mk *ssa.Call
-				for _, o := range origins(mu.Value) {
-					if cv, isC := o.Val.(*ssa.Call); isC && o.Kind == "call" && hasField(cv.Common().Value, "makeExcerpt") {
-						mk = cv
-					}
-				}
-				if mk == nil {
-					if cv, isC := mu.Value.(*ssa.Call); isC && hasField(cv.Common().Value, "makeExcerpt") {
-						mk = cv
-					}
-				}
-				c.Sites++
-				key := funcName(fn) + ":excerpt-computed-under-lock"
-				if mk == nil {
-					c.Undecided("R18.6", key, w.InstrPos(mu), "the stored excerpt is not the direct result of makeExcerpt")
-					continue
-				}
-				ok := li.holds(mk, mkey, true) && li.holds(mu, mkey, true)
-				if ok {
-					// no unlock between
-					for _, cl := range Calls(fn) {
-						if op, isOp := asLockOp(cl.Instr.Common()); isOp && op.Delta < 0 && op.Key == mkey {
-							if _, isDefer := cl.Instr.(*ssa.Defer); isDefer {
-								continue
-							}
-							a, _, _ := pathSearch(fn, mk, nil, func(i ssa.Instruction) bool { return i == cl.Instr }, func(i ssa.Instruction) bool { return i == ssa.Instruction(mu) }, false)
-							b2, _, _ := pathSearch(fn, cl.Instr, nil, func(i ssa.Instruction) bool { return i == ssa.Instruction(mu) }, nil, false)
-							if a && b2 {
-								ok = false
-							}
-						}
-					}
-				}
-				c.Check(ok, "R18.6", key, w.InstrPos(mu), "computed and stored under one hold of "+mkey, "the excerpt is computed outside the write-locked region that stores it: a concurrent update can finish in between and its newer excerpt is overwritten by the stale one (cache disagrees with a rebuild)")
-			}
-		}
-	}
-
+	checkExcerptUnderLock(c, lw, fns)
 	// R18.4
 	for _, g := range guardedByTable() {
 		n := 0
@@ -450,4 +388,74 @@ func checkSingleInstance(c *Ctx, lw *lockWorld) {
 			}
 		}
 	}
+}
+
+// checkExcerptUnderLock (R18.6). Shared with C11: an excerpt computed outside the lock that stores it can
+// overwrite a newer one — the stale excerpt is what listings, queries and the cache file then show.
+func checkExcerptUnderLock(c *Ctx, lw *lockWorld, fns []*ssa.Function) {
+	w := c.W
+	_ = w
+	// R18.6: an excerpt is computed and stored within one write-locked region
+	c.Doc("R18.6", "the value stored into SubCache.excerpts is computed (makeExcerpt) while the write lock that protects the store is already held, without release in between")
+	for _, fn := range fns {
+		if fnPkgPath(fn) != modPath+"/cache" {
+			continue
+		}
+		root := fn
+		for root.Parent() != nil {
+			root = root.Parent()
+		}
+		if funcName(root) == "cache.SubCache.Build" {
+			continue
+		}
+		li := lw.info(fn)
+		for _, b := range fn.Blocks {
+			for _, ins := range b.Instrs {
+				mu, isMU := ins.(*ssa.MapUpdate)
+				if !isMU {
+					continue
+				}
+				base, fld, isF := loadOfField(mu.Map)
+				if !isF || fld != "excerpts" {
+					continue
+				}
+				mkey := valueKey(base) + ".mu"
+				var mk *ssa.Call
+				for _, o := range origins(mu.Value) {
+					if cv, isC := o.Val.(*ssa.Call); isC && o.Kind == "call" && hasField(cv.Common().Value, "makeExcerpt") {
+						mk = cv
+					}
+				}
+				if mk == nil {
+					if cv, isC := mu.Value.(*ssa.Call); isC && hasField(cv.Common().Value, "makeExcerpt") {
+						mk = cv
+					}
+				}
+				c.Sites++
+				key := funcName(fn) + ":excerpt-computed-under-lock"
+				if mk == nil {
+					c.Undecided("R18.6", key, w.InstrPos(mu), "the stored excerpt is not the direct result of makeExcerpt")
+					continue
+				}
+				ok := li.holds(mk, mkey, true) && li.holds(mu, mkey, true)
+				if ok {
+					// no unlock between
+					for _, cl := range Calls(fn) {
+						if op, isOp := asLockOp(cl.Instr.Common()); isOp && op.Delta < 0 && op.Key == mkey {
+							if _, isDefer := cl.Instr.(*ssa.Defer); isDefer {
+								continue
+							}
+							a, _, _ := pathSearch(fn, mk, nil, func(i ssa.Instruction) bool { return i == cl.Instr }, func(i ssa.Instruction) bool { return i == ssa.Instruction(mu) }, false)
+							b2, _, _ := pathSearch(fn, cl.Instr, nil, func(i ssa.Instruction) bool { return i == ssa.Instruction(mu) }, nil, false)
+							if a && b2 {
+								ok = false
+							}
+						}
+					}
+				}
+				c.Check(ok, "R18.6", key, w.InstrPos(mu), "computed and stored under one hold of "+mkey, "the excerpt is computed outside the write-locked region that stores it: a concurrent update can finish in between and its newer excerpt is overwritten by the stale one (cache disagrees with a rebuild)")
+			}
+		}
+	}
+
 }
